@@ -150,12 +150,13 @@ def run_http_schedule(opa, opb, plan, etags_cache={}):
                 phase = "check"
         # the second request's steps are not always attributed to it at this level (they run in
         # the server's thread pool): decide the window from the first request alone - it was
-        # overtaken in its check phase iff it was parked after ALL its reads and before taking
+        # overtaken in its check phase iff it was parked after its first step and before taking
         # the index lock
         agates = [g for (y, g) in sc.trace if y == "A"]
         if phase == "none" and plan and plan[0][0] == "A" and plan[0][1] is not None and lockgate in agates \
                 and not any(y == "B" for (y, g) in sc.trace):
-            if plan[0][1] == agates.index(lockgate):
+            # (parked after at least one of its steps and not yet holding the lock)
+            if 1 <= plan[0][1] <= agates.index(lockgate):
                 phase = "check"
         ts = sorted([opa["t"], opb["t"]])
         return {"kind": "tree", "shared": True, "init": {"a": 1},
